@@ -487,6 +487,51 @@ def do_load2(case: tuple) -> ExecResult:
     return _result(case, viol, snap_digest(snap), True, {"case": repr(case), "changed": _changed(snap)})
 
 
+# A source rarely holds settings only: a Python file / module has helper names, a mapping may carry keys meant for
+# somebody else.  `loadx`: one setting next to ONE name that is not a setting - a name that collides with a read-only
+# property of Config ("log", "ssl_enabled": assigning raises AttributeError, which from_mapping skips), an unknown name,
+# a private name - placed before and after the setting (insertion order for mappings / TOML; objects are read in dir()
+# order, so the alphabet of setting names covers both sides).  The setting takes its value, nothing else moves.
+NOISE_NAMES = ["log", "ssl_enabled", "not_a_setting", "_helper"]
+LOADERS_X = ["mapping", "kwargs", "class", "namespace", "pyfile", "toml"]
+
+
+def do_loadx(case: tuple) -> ExecResult:
+    from hypercorn.config import Config
+
+    _, key, noise, pos, loader = case
+    kind, values = ref.CONFIG_KEYS[key]
+    value = values[0]
+    want = ref.normalise_setting(kind, value)
+    pairs = [(noise, "noise"), (key, value)] if pos == 0 else [(key, value), (noise, "noise")]
+    settings = dict(pairs)
+    assigned = {key: ([want], "loader-effect", f"{loader}:next-to-{noise}")}
+    cfg = None
+    with config_files(settings) as p:
+        try:
+            if loader == "mapping":
+                cfg = Config.from_mapping(dict(settings))
+            elif loader == "kwargs":
+                cfg = Config.from_mapping(**settings)
+            elif loader == "class":
+                cfg = Config.from_object(type("Settings", (), dict(settings)))
+            elif loader == "namespace":
+                cfg = Config.from_object(_settings_object("namespace", settings, p))
+            elif loader == "pyfile":
+                cfg = Config.from_pyfile(p["pyfile"])
+            elif p["toml"] is not None and kind in ref.TOML_KINDS:
+                cfg = Config.from_toml(p["toml"])
+        except Exception as e:
+            return _result(case, [V("loader-effect", f"{key}:{loader}:next-to-{noise}:raised:{type(e).__name__}", repr(e))],
+                           ("raised", type(e).__name__), True)
+    if cfg is None:
+        return _result(case, [], ("n/a",), False)
+    snap = snapshot(cfg)
+    snap.pop(noise, None)  # (an unknown name simply becomes an attribute of the Config: not a setting, not judged)
+    viol = compare(snap, assigned, "loader-effect")
+    return _result(case, viol, snap_digest(snap), snap != defaults(), {"case": repr(case), key: stable_repr(snap.get(key))})
+
+
 def _result(case: tuple, viol: List[dict], obs: Any, nontrivial: bool, sample: Optional[dict] = None) -> ExecResult:
     if os.environ.get("MC_VERBOSE"):
         print("case:", case)
@@ -1417,6 +1462,7 @@ def _year_list(tier: str) -> List[int]:
 def scenarios(tier: str) -> List[Any]:
     fams: List[Any] = [("load", key) for key in ref.CONFIG_KEYS]
     fams += [("load2", key) for key in ref.CONFIG_KEYS]
+    fams += [("loadx", key) for key in ref.CONFIG_KEYS]
     spell = [s for s, _ in ref.cli_spellings()]
     canon = [s for s, c in ref.cli_spellings() if s == c]
     fams.append(("cliopts",))
@@ -1447,6 +1493,8 @@ def cases(fam: tuple, tier: str) -> List[tuple]:
     if kind == "load":
         key = fam[1]
         return [("load", key, vi, ld) for vi in range(len(ref.CONFIG_KEYS[key][1])) for ld in LOADERS]
+    if kind == "loadx":
+        return [("loadx", fam[1], nz, pos, ld) for nz in NOISE_NAMES for pos in (0, 1) for ld in LOADERS_X]
     if kind == "load2":
         return [("load2", fam[1], kb, ld) for kb in ref.CONFIG_KEYS if kb != fam[1] for ld in LOADERS2[tier]]
     if kind == "cli3":
@@ -1510,7 +1558,7 @@ def bounds(tier: str, params: Any) -> dict:
     return {"M": 0, "S": 0, "R": 0}
 
 
-_DISPATCH = {"load": do_load, "load2": do_load2, "cli": do_cli, "clifile": do_clifile, "cliopts": do_cliopts, "bind": do_bind,
+_DISPATCH = {"load": do_load, "load2": do_load2, "loadx": do_loadx, "cli": do_cli, "clifile": do_clifile, "cliopts": do_cliopts, "bind": do_bind,
              "root": do_root, "hdr": do_hdr, "cfgname": do_cfgname, "hist": do_hist}
 
 
